@@ -30,6 +30,9 @@ checks = {
  "C08": dict(level="model_checking", ref="§C08", tech="stateless model checking of the real code: source-instrumented cooperative scheduler (every go statement, mutex, wait group, once, atomic, channel op, sleep) + deviation-bounded DFS over schedules, sharded over 16 processes",
    text="the real api.Build, re-compiled from /repo's working tree through an automatic instrumenter, runs under a scheduler that owns all goroutine interleavings; all schedules within the deviation bound (quick 1, thorough 2: preemptions and non-default picks at blocking points) around three default policies are executed for four module graphs (splitting+CSS+assets, mangle-props with three entries, failing entries+warnings, inject+glob); every execution must yield the identical observation (outputs, hashes, metafile, mangle cache, ordered diagnostics); deadlocks and panics are violations; a found difference is replayed before it is reported",
    note="sequentially consistent scheduler (no weak memory); Go map iteration order not controlled (replay divergence is an infrastructure error, not a verdict); serve_other.go is outside the instrumented set"),
+ "C19": dict(level=EXPL, ref="§C19", tech="exhaustive enumeration of build families x option variants; metafile decided against the emitted bytes (independent scanners for import/export/@import/url())",
+   text="7 hand-built families covering externals, JSON, CJS, dynamic imports, tree-shaken modules, CSS @import/url()/data URLs, splitting, legal comments, glob imports, inject, copy/file loader entries x 11 option variants (minify, source maps, hashed/long name templates, public path, formats) plus the C02 graph family: outputs keys and byte sizes, entry points, per-output imports and exports, inputs with sizes and resolved imports, bytesInOutput sums and marker-based contribution",
+   note="regex scanners are exact only for esbuild's regular output of the generated programs; data-URL inlined assets are not attributed by markers"),
  "C20": dict(level="model_checking", ref="§C20", tech="stateless model checking of the real pkg/api context code under the instrumented cooperative scheduler; all op-words<=2 per client thread x deviation-bounded schedules; interval invariants on a ground-truth event log",
    text="224 harnesses (every pair of words of <=2 operations over {Rebuild, Cancel, Dispose, Edit} for 2 client threads, 3 single-operation threads, injected failures of each callback kind) run against one real build context whose modules come from plugin callbacks; all schedules within the deviation bound (quick 1, thorough 2) at choice points in pkg/api, config, helpers and the callbacks, two default policies; invariants: no deadlock/panic, every Rebuild returns empty-after-dispose / cancelled / exactly one build's result (no mixture, equals what that build's end callback saw, not stale, reflects earlier edits when started after the call), Cancel/Dispose return only after the active build ended, nothing runs after Dispose returned, start callbacks finish before resolve/load, each module loaded once per build, end callbacks once",
    note="sequentially consistent scheduler; Serve over sockets, Watch polling and the stdio service loop (cmd/esbuild) are not part of the explored harnesses yet; the first schedule of every harness is replayed to validate determinism"),
